@@ -35,6 +35,11 @@ theorem detect_closure :
 /-- `run` leaves through detect before anything of the filtering pipeline is reached: it is the first event -/
 theorem detect_first : Extracted.runEvents.head? = some (.call .detectRun [.other]) := by decide +kernel
 
+/-- the cap of the model is the cap of the code, and the pattern table is the audited one (extracted on every run) -/
+theorem cap_is_the_codes : constOf Extracted.consts .maxDetectedValues = some maxDetected := by decide +kernel
+
+theorem secret_patterns_audited : Extracted.secretPatterns = auditedSecretPatterns := by decide +kernel
+
 /-! ### soundness of a single value -/
 
 theorem trimMatches_infix (c : UInt8) (s : Bytes) : trimMatches c s <:+: s := by
